@@ -524,8 +524,9 @@ open Qryn.EncoderCensus in
     `tracePre`/`tracePost` with their whitespace, `,`, `]}`, `]}}`) -/
 theorem gen_literals :
     litsOf "QueryLabelsService.GenericLabelReq" "send" = [labelsPre, [44], [93, 125]] ∧
-    litsOf "QueryLabelsService.Series" "send" = [seriesEmptyDoc, seriesPre, [44], [93, 125]] ∧
-    litsOf "QueryLabelsService.Values" "send" = [valuesEmptyDoc] ∧
+    litsOf "QueryLabelsService.series" "send" = [seriesEmptyDoc, seriesPre, [44], [93, 125]] ∧
+    litsOf "QueryLabelsService.Series" "send" = [seriesEmptyDoc] ∧
+    litsOf "QueryLabelsService.values" "send" = [valuesEmptyDoc] ∧
     litsOf "TempoController.Tags" "write" = [tagsPre, [44], [93, 125]] ∧
     litsOf "TempoController.Values" "write" = [tagValuesPre, [44], [93, 125]] ∧
     litsOf "TempoController.Search" "write" = [searchPre, [44], [93, 125], searchPre, [44], [93, 125]] ∧
